@@ -167,13 +167,13 @@ func (h *harness) onHeight(newHeight int64) {
 	var e ev
 	switch {
 	case newHeight == prev.num+1:
-		f := h.src.onHead(hdr.Hash, &cur)
+		f := h.src.onHead(hdr.Hash, &cur, true)
 		e = ev{K: "C+", N: newHeight, H: *hdr.Hash, P: *hdr.ParentHash, T: f.clock, Served: f.served}
 	case newHeight == prev.num-1:
-		f := h.src.onHead(&prev.hash, &cur)
+		f := h.src.onHead(&prev.hash, &cur, false)
 		e = ev{K: "C-", N: prev.num, H: prev.hash, P: cur.hash, T: f.clock, Canonical: f.canonical}
 	default:
-		f := h.src.onHead(&cur.hash, &cur)
+		f := h.src.onHead(&cur.hash, &cur, true)
 		e = ev{K: "C?", N: newHeight, From: prev.num, T: f.clock}
 	}
 	h.append(e)
